@@ -103,7 +103,10 @@ pub fn good_specs(rng: &mut SRng, slot: u64, nslices: usize, switch: bool) -> Ve
             let p = if i == 0 {
                 Some(parent)
             } else if Some(i) == switch_at {
-                Some((rng.random_range(0..slot), crate::common::hash_bytes(&alpenglow::crypto::hash(&(slot + 1000).to_le_bytes()))))
+                // the ready parent may be another block of the optimistic parent's own slot (the previous
+                // leader equivocated), or a block of any earlier slot
+                let ps = if rng.random_bool(0.4) { parent.0 } else { rng.random_range(0..slot) };
+                Some((ps, crate::common::hash_bytes(&alpenglow::crypto::hash(&(slot + 1000).to_le_bytes()))))
             } else {
                 None
             };
